@@ -20,6 +20,10 @@ def fields(cls, **kw):
     REGISTRY["fields"].setdefault(cls, {}).update(kw)
 
 
+def opaque(name, **kw):
+    REGISTRY.setdefault("opaque", {})[name] = kw
+
+
 def lemma(name, **kw):
     REGISTRY["lemmas"][name] = kw
 
